@@ -24,7 +24,59 @@ MUST_REACH = ["replaced_matches", "bystanders_checked"]   # only probes that do 
 
 
 def generate(rng, tier):
-    return replcheck.gen_replace_world(rng)
+    spec = replcheck.gen_replace_world(rng)
+    if rng.random() < 0.25:
+        # second phase: the same world with some bystander atoms STORED outside the cell box (a legal object: unwrapped coordinates)
+        spec["unwrap"] = {"picks": [rng.random() for _ in range(rng.randint(1, 4))],
+                          "shifts": [[rng.choice([-2, -1, -1, 0, 1, 1, 2]) for _ in range(3)] for _ in range(4)]}
+    return spec
+
+
+def _unwrapped_phase(ctx, spec, search, replace):
+    """Bystander atoms (atoms of no planted copy or decoy) stored outside the cell box: whatever the search makes of them, the
+    caller's structure must come back unmodified, and such an atom - if no found match contains it - must be in the result
+    exactly where it was stored."""
+    import copy
+    cell = np.array(spec["cell"], float)
+    sp2 = copy.deepcopy(spec)
+    moved = {}
+    # bystanders of an element the pattern does not contain (they can be part of no match), stored outside the cell box
+    sp2["atom_type_elements"] = list(spec["atom_type_elements"]) + ["Kr"]
+    sp2["atom_type_labels"] = list(spec["atom_type_labels"]) + ["Kr_out"]
+    sp2["atom_type_masses"] = list(spec["atom_type_masses"]) + [83.798]
+    for k, x in enumerate(spec["unwrap"]["picks"]):
+        sh = np.array(spec["unwrap"]["shifts"][k % 4], float)
+        if not sh.any():
+            sh = np.array([0.0, -1.0, 1.0])
+        f = np.array([x, (x * 7.3) % 1.0, (x * 13.7) % 1.0])
+        moved[len(sp2["elements"])] = sh
+        sp2["elements"].append("Kr")
+        sp2["positions"].append(((f + sh) @ cell).tolist())
+        sp2["atom_types"].append(len(sp2["atom_type_elements"]) - 1)
+        sp2["charges"].append(0.25 * (k + 1))
+        sp2["groups"].append(k)
+    pos = np.array(sp2["positions"], float).reshape(-1, 3)
+    spec = sp2
+    structure = replcheck.build_structure(spec)
+    snap = replcheck.snapshot(structure)
+    run = replcheck.run_replace(ctx, structure, search, replace, spec, spec["scripts"][0])
+    replcheck.assert_unmodified(snap, structure, "structure (with atoms stored outside the cell box)")
+    ctx.count("unwrapped_bystander_runs")
+    if run.exc is not None or run.result is None:
+        return
+    matched = set(int(i) for t in (run.found[0] if run.found else []) for i in t) if run.found is not None else None
+    if matched is None:
+        return
+    index = replcheck.exact_index(np.array(run.result.positions, float).reshape(-1, 3))
+    rel = list(run.result.elements)
+    for i in moved:
+        if i in matched:
+            continue
+        key = tuple(float(x) for x in pos[i])
+        if not [j for j in index.get(key, []) if rel[j] == spec["elements"][i]]:
+            raise Violation("c04:bystander-lost-or-moved", "bystander atom %d (%s), stored outside the cell box at %s, is not in the result at that position"
+                            % (i, spec["elements"][i], list(key)), site="replace")
+        ctx.count("unwrapped_bystanders_checked")
 
 
 def _is_overlap_error(e):
@@ -106,6 +158,8 @@ def execute(spec, ctx):
         if rep:
             nontrivial = True
         ctx.event("c04", k, M, rep, len(res))
+    if spec.get("unwrap"):
+        _unwrapped_phase(ctx, spec, search, replace)
     if nontrivial:
         ctx.key(spec["cell"], spec["positions"], spec["pattern"], spec["replace"], spec["fraction"], spec["replace_all"])
 
